@@ -323,6 +323,7 @@ package vanguard
 //@   modifies w.env, owned(w.rw.buf), #RWB
 
 //@ func (*envelopingWriter).maybeInit
+//@   atcall[C03,C02] (vanguard.envelopedProtocolHandler).encodeEnvelope: arg(1).compressed == (w.rw.op.client.respCompression != nil) && !arg(1).trailer && arg(1).length == w.rw.contentLen
 //@   ensures[C03] old(w.initialized) ==> w.rw.endWritten == old(w.rw.endWritten)
 //@   requires[C03] !w.initialized ==> !w.rw.endWritten
 //@   ensures[C03] !old(w.initialized) && w.err == nil ==> !w.rw.endWritten
@@ -356,6 +357,8 @@ package vanguard
 //@   modifies w.writingEnvelope, w.current, w.mustReleaseCurrent, w.currentIsTrailer, w.trailerIsCompressed, w.remainingBytes, w.err, owned(unbox(w.current, *bytes.Buffer)), owned(w.rw.buf), #RWB
 
 //@ func (*envelopingWriter).handleTrailer
+//@   track unlimited ?= (*compressionPool).decompress
+//@   ensures[C10] unlimited == 0
 //@   atcall[C10] (*compressionPool).decompressLimit: arg(3) == limitOf(w.rw.op)
 //@   requires validEW(w) && relInv(w)
 //@   requires w.current != nil && w.initialized
@@ -407,6 +410,8 @@ package vanguard
 //@ |  && (op.clientEnveloper != nil ==> tagOf(op.clientEnveloper) == tagOf(op.client.protocol)) && (op.serverEnveloper != nil ==> tagOf(op.serverEnveloper) == tagOf(op.server.protocol))
 
 //@ func (*message).decompress
+//@   track unlimited ?= (*compressionPool).decompress
+//@   ensures[C10] unlimited == 0
 //@   requires m != nil && m.buf != nil && validOp(op)
 //@   requires[C14] owned(m.buf)
 //@   ensures[C14,C15] owned(m.buf) && (m.buf != old(m.buf) ==> !owned(old(m.buf)) && !wasOwned(m.buf))
@@ -499,6 +504,8 @@ package vanguard
 //@   opt inline
 
 //@ func (*transformingWriter).flushMessage
+//@   track unlimited ?= (*compressionPool).decompress
+//@   ensures[C10] unlimited == 0
 //@   atcall[C10] (*compressionPool).decompressLimit: arg(3) == limitOf(w.rw.op)
 //@   dispatch (io.Writer).Write: *limitWriter
 //@   requires validTW(w) && w.buffer != nil && w.buffer == w.msg.buf && w.err == nil && owned(w.buffer) && w.buffer != w.rw.buf
@@ -508,6 +515,7 @@ package vanguard
 //@   track flushed = (*responseWriter).flushMessage
 //@   atcall[C03] (io.Writer).Write: !w.rw.endWritten
 //@   atcall[C01,C02,C03] (vanguard.envelopedProtocolHandler).encodeEnvelope: arg(1).compressed == (w.msg.wasCompressed && w.rw.op.client.respCompression != nil) && !arg(1).trailer && arg(1).length == blen(w.msg.buf) && w.msg.stage == 3
+//@   atcall[C10] (vanguard.envelopedProtocolHandler).encodeEnvelope: arg(1).length <= limitOf(w.rw.op)
 //@   ensures[C16] err == nil && !w.latestEnvelope.trailer ==> flushed == 1
 //@   ensures[C03] err == nil && !w.latestEnvelope.trailer ==> !w.rw.endWritten
 //@   ensures (w.buffer != nil ==> w.buffer != w.rw.buf) && (w.msg.buf != nil ==> w.msg.buf != w.rw.buf)
@@ -559,6 +567,8 @@ package vanguard
 //@   modifies mapobj(headers), #LIB0
 
 //@ func (*errorWriter).Close
+//@   track unlimited ?= (*compressionPool).decompress
+//@   ensures[C10] unlimited == 0
 //@   atcall[C10] (*compressionPool).decompressLimit: arg(3) == limitOf(e.rw.op)
 //@   requires validErrW(e) && e.processBody != nil
 //@   step rwStep(e.rw)
@@ -1088,6 +1098,8 @@ package vanguard
 // The GET message is URL-safe base64 (unpadded first, padded as the only fallback), then goes through
 // the client's decompressor and the client's codec, exactly like a POST body.
 //@ func (connectUnaryGetClientProtocol).prepareUnmarshalledRequest
+//@   track unlimited ?= (*compressionPool).decompress
+//@   ensures[C10] unlimited == 0
 //@   atcall[C10] (*compressionPool).decompressLimit: arg(3) == limitOf(op)
 //@   requires validOp(op) && op.request.URL != nil && op.bufferPool != nil
 //@   track decs = (*encoding/base64.Encoding).DecodeString
